@@ -101,7 +101,7 @@ where
 }
 fn pw_mul_assign<T>(ty: String) -> PwCase
 where
-    T: Nums + Evaluate + MulAssign<f64> + Copy + Send + Sync + PartialEq + std::fmt::Debug,
+    T: Nums + Evaluate + MulAssign<f64> + Copy + Send + Sync + PartialEq + std::fmt::Debug + Translate,
 {
     PwCase {
         ty, op: "Piecewise *= s , Segment *= s , (&mut Segment) *= s", positive_only: false, scalar: true,
